@@ -339,6 +339,12 @@ class DataFrame(Entity, DataSet):
 
     @units.setter
     def units(self, units):
+        if units is None:
+            # documented: "can be set to None"
+            self._h5group.set_attr("units", None)
+            if self.file.auto_update_timestamps:
+                self.force_updated_at()
+            return
         units_arr = np.array(units, util.vlen_str_dtype)
         for idx, unit in enumerate(units_arr):
             if unit is not None:
